@@ -258,6 +258,8 @@ def replay(verdict, exe, res, aspects, seed=0, tag="api", pol=None, sigprefix="a
                 probs.append("%d heap block(s) still live after cfg_free" % (e0["live"] - b0["live"]))
             if e0["streams"] != b0["streams"] or e0["fds"] != b0["fds"]:
                 probs.append("open streams/descriptors not restored")
+            if e0.get("uptr_lost", 0):
+                probs.append("%d user pointer(s) produced by the value-parsing callback were never handed to the release callback" % e0["uptr_lost"])
             if probs:
                 verdict.violation("%s:balance:%s" % (sigprefix, desc), "%s :: %s" % (desc, "; ".join(probs)), rep)
     verdict.cov["evaluations"] += len(meta)
